@@ -21,11 +21,19 @@ RULE = (
 )
 
 
+def _safe(fn, arg):
+    try:
+        return fn(arg)
+    except Exception as err:  # pylint: disable=broad-except
+        return f"{type(err).__name__}"
+
+
 def judge(case):
     from pyrtcm import RTCM_DATA_FIELDS, att2idx, att2name, datadesc  # pylint: disable=import-outside-toplevel
 
     out = core.Outcome()
-    name, key, idx = case["name"], case["key"], tuple(case["idx"])
+    name, key = case["name"], case["key"]
+    idx = tuple(case["idx"]) if case["idx"] is not None else None
     plain_df = len(key) == 5 and key[:2] == "DF" and key[2:].isdigit()
     out.nontrivial = bool(idx) or not plain_df
     want = RTCM_DATA_FIELDS[key][3]
@@ -38,7 +46,12 @@ def judge(case):
         kind = "IDF" if key.startswith("IDF") else "derived" if key in R.DERIVED else \
             "suffixed-key" if "_" in key else "other"
         out.bad(f"datadesc-raises:{kind}", f"datadesc({name!r}) raises {type(err).__name__}: {err}")
-    if idx:
+    if idx is None:
+        out.bad("att2idx-wrong:name-not-from-layout",
+                f"the parser produced the attribute name {name!r} (data field {key}), which is not the "
+                f"field key plus one _NN suffix per nesting level of any field occurrence of the message; "
+                f"att2idx gives {_safe(att2idx, name)!r}")
+    elif idx:
         try:
             gi = att2idx(name)
             wi = idx[0] if len(idx) == 1 else idx
@@ -69,10 +82,28 @@ def _collect(item):
         except Exception:  # pylint: disable=broad-except
             continue
         have = set(vars(msg))
+        refseq = []
         for o in occs:
             nm = o.key if o.typ == "STR" else o.name
             if nm in have:
                 names[nm] = (o.key, () if o.typ == "STR" else o.idx)
+            if not refseq or refseq[-1][0] != nm:
+                refseq.append((nm, o.key, () if o.typ == "STR" else o.idx))
+        # names the parser produced that the layout does not know: the attribute created at the same
+        # position stands for the reference field at that position, so its key and group index
+        # are known -- the helpers are asked about the name the parser actually gave it
+        real = [k for k in vars(msg) if not k.startswith("_")]
+        if len(real) == len(refseq):
+            for rn, (nm, key, idx) in zip(real, refseq):
+                if rn != nm and rn not in names:
+                    names[rn] = (key, idx)
+        else:
+            for rn in real:
+                if rn not in names and rn not in {r[0] for r in refseq}:
+                    base, _, tail = rn.partition("_")
+                    cand = [r for r in refseq if r[1] == base or r[1].startswith(base + "_")]
+                    if cand:
+                        names[rn] = (cand[0][1], None)  # index unknown: description / key only
     st.extra["names"] = {(n, k, i) for n, (k, i) in names.items()}
     return st
 
@@ -89,8 +120,8 @@ def run(tier, seed, t0):
         for ch in core.chunks(shp, 40):
             items.append((identity, ch))
     st0 = core.pmap(_collect, items)
-    names = sorted(st0.extra.get("names", set()))
-    cases = [{"name": n, "key": k, "idx": list(i)} for n, k, i in names]
+    names = sorted(st0.extra.get("names", set()), key=repr)
+    cases = [{"name": n, "key": k, "idx": list(i) if i is not None else None} for n, k, i in names]
     if not cases:
         raise core.Broken("no attribute names collected")
     core.check_deterministic(judge, cases[0])
@@ -107,7 +138,7 @@ def run(tier, seed, t0):
             resweep += 1
     st.extra["history_resweep_calls"] = resweep
     st.extra["max_index"] = max((max(c["idx"]) for c in cases if c["idx"]), default=0)
-    st.extra["two_level_names"] = sum(1 for c in cases if len(c["idx"]) == 2)
+    st.extra["two_level_names"] = sum(1 for c in cases if c["idx"] and len(c["idx"]) == 2)
     st.extra["three_digit_names"] = sum(1 for c in cases if c["idx"] and max(c["idx"]) > 99)
     st.extra["keys_covered"] = len({c["key"] for c in cases})
     return core.finish(
